@@ -118,6 +118,71 @@ def case_cxof(m, layout, variant_a, name, clen, mlen, outlen, fixed):
     return None
 
 
+
+def case_xof_copy(m, layout, variant_a, mlen, s1, s2, m2len):
+    """a copy taken at any point continues exactly like its original: init,
+    absorb M, squeeze s1 byte(s) (s1 = 0: still absorbing), copy; then absorb
+    m2len more byte(s) (only while absorbing) and squeeze s2 from the copy and
+    from the original"""
+    a = "a" if variant_a else ""
+    R = modes.Run(m, layout)
+    M = R.buf("M", mlen)
+    M2 = R.buf("N", m2len)
+    size = R.struct_size("ascon_xof%s_state_t" % a)
+    st, dst = R.obj(size), R.obj(size)
+    o1, o2, o3 = R.out(s1), R.out(s2), R.out(s2)
+    R.call("ascon_xof%s_init" % a, st)
+    R.call("ascon_xof%s_absorb" % a, st, M, mlen)
+    if s1:
+        R.call("ascon_xof%s_squeeze" % a, st, o1, s1)
+    R.call("ascon_xof%s_copy" % a, dst, st)
+    if m2len and not s1:
+        R.call("ascon_xof%s_absorb" % a, dst, M2, m2len)
+        R.call("ascon_xof%s_absorb" % a, st, M2, m2len)
+    R.call("ascon_xof%s_squeeze" % a, dst, o2, s2)
+    R.call("ascon_xof%s_squeeze" % a, st, o3, s2)
+    msg = SB("M", mlen) + (SB("N", m2len) if m2len and not s1 else ())
+    want = R.spec.xof(variant_a, msg, s1 + s2)
+    d = modes.first_diff(R.read(o3, s2), want[8 * s1:])
+    if d:
+        return ("original", "the original continues wrongly after being copied (at %s)" % d)
+    d = modes.first_diff(R.read(o2, s2), want[8 * s1:])
+    if d:
+        return ("copy", "a copy taken after absorbing %d and squeezing %d byte(s) does not continue like its original: its next "
+                "%d byte(s) differ at %s" % (mlen, s1, s2, d))
+    return None
+
+
+def case_xof_reinit(m, layout, variant_a, first, pre, sq, mlen, outlen):
+    """re-initialising a used state is indistinguishable from a fresh one: the
+    state is first set up as `first` (plain / fixed / custom), fed `pre` byte(s),
+    optionally squeezed, then *_reinit, absorb M, squeeze"""
+    a = "a" if variant_a else ""
+    R = modes.Run(m, layout)
+    M = R.buf("M", mlen)
+    X = R.buf("X", pre)
+    st = R.obj(R.struct_size("ascon_xof%s_state_t" % a))
+    out, junk = R.out(outlen), R.out(max(sq, 1))
+    if first == "fixed":
+        R.call("ascon_xof%s_init_fixed" % a, st, 64)
+    elif first == "custom":
+        nm = R.buf("name", 4, symbolic=False, data=b"KDF\0")
+        R.call("ascon_xof%s_init_custom" % a, st, nm, None, 0, 0)
+    else:
+        R.call("ascon_xof%s_init" % a, st)
+    if pre:
+        R.call("ascon_xof%s_absorb" % a, st, X, pre)
+    if sq:
+        R.call("ascon_xof%s_squeeze" % a, st, junk, sq)
+    R.call("ascon_xof%s_reinit" % a, st)
+    R.call("ascon_xof%s_absorb" % a, st, M, mlen)
+    R.call("ascon_xof%s_squeeze" % a, st, out, outlen)
+    d = modes.first_diff(R.read(out, outlen), R.spec.xof(variant_a, SB("M", mlen), outlen))
+    if d:
+        return ("reinit", "a state set up as %s, fed %d byte(s)%s and then re-initialised does not behave like a fresh one: "
+                "output differs at %s" % (first, pre, " and squeezed" if sq else "", d))
+    return None
+
 # ---------------------------------------------------------------------------
 # C04
 def case_prf(m, layout, mlen, outlen):
